@@ -48,6 +48,19 @@ pub fn undo_throttles(d: &mut Driver) {
         if !d.sim.nodes[v].idle() {
             continue;
         }
+        // group commit switched on at run time in an execution that is not a group-commit one:
+        // the operator switches it off again (progress under group commit needs two groups)
+        if !d.knobs.group_commit && d.sim.nodes[v].raw.as_ref().is_some_and(|r| r.raft.prs().group_commit()) {
+            d.sim.call(
+                v,
+                crate::sim::types::Op::Knob("enable_group_commit"),
+                |raw| raw.raft.enable_group_commit(false),
+                |_| crate::sim::types::Res::Unit,
+            );
+            if !d.sim.nodes[v].idle() {
+                continue;
+            }
+        }
         let cap = d.sim.nodes[v].cfg.max_inflight_msgs;
         let ids: Vec<u64> = d.universe.clone();
         for t in ids {
